@@ -35,6 +35,11 @@ MUTANTS = [
      "month arithmetic without end-of-month clamping"),
     ("IndexSteps.tla", "IF AllHaveZid(files[e.p]) THEN [hashes EXCEPT ![e.p] = files[e.p]] ELSE hashes", "[hashes EXCEPT ![e.p] = files[e.p]]", "MC_IndexSteps",
      "MC_IndexSteps_fixed.cfg", {"Converges"}, "a write-back records the page's hash although another write-back is pending"),
+    ("Bus.tla", "Sorted(q) == SelectSeq(q, IsEvent) \\o SelectSeq(q, IsCommand)", "Sorted(q) == q", "MC_Bus", "MC_Bus.cfg",
+     {"QuiescentEditor", "EventsFirst"}, "the bus handles messages in arrival order (commands may overtake write-back events)"),
+    ("Bus.tla", "/\\ queue' = Rest \\o << [k |-> \"Reindex\"] >> \\o (IF again THEN << edit >> ELSE <<>>)",
+     "/\\ queue' = Rest \\o (IF again THEN << edit >> ELSE <<>>) \\o << [k |-> \"Reindex\"] >>", "MC_Bus", "MC_Bus.cfg",
+     {"QuiescentEditor"}, "the next editor session is queued before the reindex of the previous one"),
 ]
 
 
